@@ -158,6 +158,95 @@ func runSched(sc *SchedCase) (violation string) {
 	return ""
 }
 
+// ExtendCase is a deadline-extension scenario: many entries get their deadline extended (by an
+// explicit override or by access-reset reads); the read events that would re-file their timers are
+// buffered lossily, so some are dropped, and the sweep itself must re-file such timers. The clock
+// then moves on in small steps with a CleanUp at each; the C13 rule is applied at every CleanUp.
+type ExtendCase struct {
+	Engine   string `json:"engine"`
+	Seed     uint64 `json:"seed"`
+	Index    int    `json:"index"`
+	Keys     int    `json:"keys"`
+	TTL1     int64  `json:"ttl"`
+	TTL2     int64  `json:"extended_ttl"`
+	Access   bool   `json:"access_reset_policy"` // extension by reads instead of SetExpiresAfter
+	Step     int64  `json:"clock_step"`
+	Bound    int    `json:"maximum_size"`
+	Rounds   int    `json:"extension_rounds"`
+}
+
+func runExtend(ec *ExtendCase) (violation string, judged int) {
+	clk := NewManualClock(1_000_000_000)
+	reported := map[int]bool{}
+	o := &otter.Options[int, int]{
+		Clock:    clk,
+		Executor: func(fn func()) { fn() },
+		OnDeletion: func(e otter.DeletionEvent[int, int]) {
+			if e.Cause == otter.CauseExpiration || e.Cause == otter.CauseOverflow {
+				reported[e.Key] = true
+			}
+		},
+	}
+	if ec.Access {
+		o.ExpiryCalculator = otter.ExpiryAccessing[int, int](time.Duration(ec.TTL1))
+	} else {
+		o.ExpiryCalculator = otter.ExpiryWriting[int, int](time.Duration(ec.TTL1))
+	}
+	if ec.Bound > 0 {
+		o.MaximumSize = ec.Bound
+	}
+	c, err := otter.New(o)
+	if err != nil {
+		return "cannot build: " + err.Error(), 0
+	}
+	defer c.StopAllGoroutines()
+	deadline := make([]int64, ec.Keys)
+	written := make([]int64, ec.Keys)
+	for k := 0; k < ec.Keys; k++ {
+		c.Set(k, k)
+		deadline[k] = clk.NowNano() + ec.TTL1
+		written[k] = clk.NowNano()
+	}
+	for round := 0; round < ec.Rounds; round++ {
+		clk.Advance(ec.TTL1 / int64(ec.Rounds+2))
+		for k := 0; k < ec.Keys; k++ {
+			if ec.Access {
+				if _, ok := c.GetIfPresent(k); ok {
+					deadline[k] = clk.NowNano() + ec.TTL1
+				}
+			} else if _, ok := c.GetEntryQuietly(k); ok {
+				c.SetExpiresAfter(k, time.Duration(ec.TTL2+int64(round)))
+				deadline[k] = clk.NowNano() + ec.TTL2 + int64(round)
+			}
+		}
+	}
+	var last int64
+	for _, d := range deadline {
+		last = max(last, d)
+	}
+	for clk.NowNano() < last+4*tickNanos {
+		clk.Advance(ec.Step)
+		c.CleanUp()
+		t := clk.NowNano()
+		for k := 0; k < ec.Keys; k++ {
+			if deadline[k] < t-tickNanos && written[k] < t-tickNanos {
+				judged++
+				_, present := c.GetEntryQuietly(k)
+				if present {
+					return fmt.Sprintf("key %d is visible at %d although its deadline was %d", k, t, deadline[k]), judged
+				}
+				if !reported[k] {
+					return fmt.Sprintf("CleanUp at %d: key %d (deadline %d after an extension, written at %d) has not been removed and reported (EstimatedSize %d)", t, k, deadline[k], written[k], c.EstimatedSize()), judged
+				}
+			}
+		}
+	}
+	if n := c.EstimatedSize(); n != 0 {
+		return fmt.Sprintf("after every deadline passed by more than a tick EstimatedSize is still %d", n), judged
+	}
+	return "", judged
+}
+
 // RunSched runs the writer-vs-maintenance schedules of C13.
 func RunSched(col *core.Collector, tier string, seed uint64, shard, nshards int, replayDir string) {
 	col.Note("rule: schedule part: a writer is parked inside Clock.NowNano after it sampled T0, maintenance runs at T1 >> T0, the writer resumes, and a CleanUp more than one tick later must have removed and reported the entry; non-trivial = the deadline computed from T0 lies before T1; distinct = hash of the schedule parameters")
@@ -196,6 +285,40 @@ func RunSched(col *core.Collector, tier string, seed uint64, shard, nshards int,
 			data, _ := json.MarshalIndent(map[string]any{"sched_case": sc, "violation": v}, "", " ")
 			os.WriteFile(path, data, 0o644)
 			col.Violation(core.Violation{Property: "C13", Signature: "sched:" + sigOf(v), Detail: v + fmt.Sprintf(" (schedule %+v)", *sc), Replay: path})
+			if col.NumViolations() >= 5 {
+				break
+			}
+		}
+	}
+}
+
+// RunExtend runs the deadline-extension scenarios of C13.
+func RunExtend(col *core.Collector, tier string, seed uint64, shard, nshards int, replayDir string) {
+	n := 400
+	if tier == "thorough" {
+		n = 20000
+	}
+	for i := shard; i < n; i += nshards {
+		r := core.NewRng(core.Derive(seed, core.StrLabel("C13extend"), uint64(i)))
+		ec := &ExtendCase{Engine: "extend", Seed: seed, Index: i}
+		ec.Keys = 18 + r.Intn(60)
+		ec.TTL1 = int64(2+r.Intn(25)) * 1_000_000_000
+		ec.TTL2 = ec.TTL1 + int64(3+r.Intn(40))*1_000_000_000
+		ec.Access = r.Chance(1, 2)
+		ec.Step = []int64{tickNanos / 2, tickNanos, tickNanos + 12345, 2 * tickNanos, 3_000_000_000, 5 * tickNanos}[r.Intn(6)]
+		ec.Rounds = 1 + r.Intn(3)
+		if r.Chance(1, 4) {
+			ec.Bound = ec.Keys + r.Intn(20)
+		}
+		v, judged := runExtend(ec)
+		col.Eval(1)
+		col.Count("extension.entries_judged", int64(judged))
+		col.NonTrivial(core.HashJSON(ec))
+		if v != "" {
+			path := filepath.Join(replayDir, fmt.Sprintf("C13-extend-%x.json", core.HashJSON(ec)))
+			data, _ := json.MarshalIndent(map[string]any{"extend_case": ec, "violation": v}, "", " ")
+			os.WriteFile(path, data, 0o644)
+			col.Violation(core.Violation{Property: "C13", Signature: "extend:" + sigOf(v), Detail: v + fmt.Sprintf(" (scenario %+v)", *ec), Replay: path})
 			if col.NumViolations() >= 5 {
 				break
 			}
